@@ -19,7 +19,8 @@ open Genshi Genshi.Incl Genshi.Sexp
     kept <files> <entry> <kind>   → ( ok target … ) | err : resolved targets of the statically named includes
                                     still present in the prepared entry, in document order
     inh <files>            → T | F     (the theorem's hypothesis, with T = all match tags of the file set)
-    inh <files> w          → ( T|F T|F )   inH and inHW (the hypothesis without "every file is well-formed")
+    inh <files> w          → ( T|F T|F T|F )   inH, inHW (the hypothesis without "every file is well-formed"), inHS (the
+                                               hypothesis of runtime = specification with match templates)
     resolve <pos> <href>   → name | N
 -/
 
@@ -126,7 +127,8 @@ def handle : List Sexp → Option Sexp
       | "inline-marked" => pure (resOut (renderInline files entry kind data fuel))
       | "runtime" => pure (resOut (renderRuntime files entry kind data fuel))
       -- the specification evaluator (an include stands for its target), where `runtime_eq_spec_partial` speaks
-      | "inplace" => pure (if noMtFiles files then resOut (renderSpec files entry kind data fuel) else .atom "na")
+      | "inplace" => pure (if noMtFiles files || inHS (matchTags files) files
+                           then resOut (renderSpec files entry kind data fuel) else .atom "na")
       | _ => none
   | [.atom "chain", .atom mode, fuel, files, .list reqs] => do
       let fuel ← fuel.toNat?
@@ -176,7 +178,8 @@ def handle : List Sexp → Option Sexp
   | [.atom "inh", files, .atom "w"] => do
       -- both hypotheses: inH, and inHW (ill-formed files allowed)
       let files ← files? files
-      pure (.list [ofBool (inH (matchTags files) files), ofBool (inHW (matchTags files) files)])
+      pure (.list [ofBool (inH (matchTags files) files), ofBool (inHW (matchTags files) files),
+                   ofBool (inHS (matchTags files) files)])
   | [.atom "resolve", .str pos, .str href] =>
       match resolve pos href with
       | some n => some (.str n)
